@@ -13,18 +13,25 @@ open MeshHeap
 variable {κ α : Type} [DecidableEq κ]
 
 /-- **op_refines.** In a state whose slices all lie inside their arrays (`State.Bounded`), if an operation of the current
-    tree succeeds on the heap, then the PURE operation `pureOp` — a function of the observable values of the pool only —
-    succeeds and returns exactly the observable values of the meshes returned: the result does not depend on where the
-    heap put anything, on spare capacities, or on the growth policy of `append`. -/
+    tree succeeds on the heap, then the PURE operation `pureOp` succeeds and returns exactly the observable values of the
+    meshes returned: the result does not depend on where the heap put anything, on spare capacities, or on the growth
+    policy of `append`.  It is a function of the observable values of the pool AND of the operation value `op`, which for
+    `Append` and `ToPointCloud` includes what Go's `AttributeLength()` resolved to (`aLen`, `bLen`, `n`): Go answers with
+    the length of the first attribute its randomised MAP ITERATION yields, so for a ragged mesh (attribute arrays of
+    different lengths — `SetFloatNAttribute` does no length check) the answer varies from call to call and the result of
+    `Append` is NOT a function of the observations alone.  The theorem holds for every resolution; for meshes with one
+    common attribute length the resolution is forced (`attrLen_forced`). -/
 theorem op_refines (E : Env α) (s : State κ α) (bs : s.Bounded) (op : Op κ α) (hc : op.current = true)
     (h' : Heap κ α) (rs : List MeshRep) (ha : op.apply E s = some (h', rs)) :
     pureOp E (s.pool.map (obs s.heap)) op = some (rs.map (obs h')) :=
   apply_refines E bs hc ha
 
-/-- **append_refines.** The same for `Append` alone, as an equality of options (panic included). -/
-theorem append_refines (E : Env α) (h : Heap κ α) (m o : MeshRep) (bm : m.Bounded h) (bo : o.Bounded h) :
-    (appendCopy E h m o).map (fun x => obs x.1 x.2) = pureAppend E (obs h m) (obs h o) :=
-  appendCopy_refine E bm bo
+/-- **append_refines.** The same for `Append` alone, as an equality of options (panic included), for every resolution
+    `aLen`, `bLen` of the two `AttributeLength()` calls. -/
+theorem append_refines (E : Env α) (h : Heap κ α) (m o : MeshRep) (bm : m.Bounded h) (bo : o.Bounded h)
+    (aLen bLen : Nat) :
+    (appendCopy E h m o aLen bLen).map (fun x => obs x.1 x.2) = pureAppend E aLen bLen (obs h m) (obs h o) :=
+  appendCopy_refine E bm bo aLen bLen
 
 theorem step_bounded (E : Env α) (s : State κ α) (bs : s.Bounded) (op : Op κ α) (hc : op.current = true) :
     (step E s op).Bounded := by
@@ -73,8 +80,37 @@ theorem pureOp_mono (E : Env α) (l t : List (MeshObs κ α)) (op : Op κ α) (v
     obtain ⟨r, hr, hv⟩ := h
     exact ⟨r, get_append hr, hv⟩
 
+omit [DecidableEq κ] in
+/-- **attrLen_forced.** For a mesh with one common attribute length, whatever `AttributeLength()` may answer (`IsAttrLen`:
+    the length of some attribute, or 0 when there is none) is the one value `attrLenObs` — the resolution carried by
+    `Append`/`ToPointCloud` is then determined by the observation, and `op_refines` says the result is a function of the
+    observations alone. -/
+theorem attrLen_forced (o : MeshObs κ α) (n : Nat) (hu : Uniform o) (hn : IsAttrLen o n) : n = attrLenObs o := by
+  unfold attrLenObs
+  cases hl : o.attrs.reverse.flatMap id with
+  | nil =>
+    have hnil : o.attrs.flatMap id = [] := by
+      rw [List.flatMap_eq_nil_iff] at hl ⊢
+      exact fun x hx => hl x (List.mem_reverse.mpr hx)
+    rcases hn with h1 | ⟨_, h0⟩
+    · simp [lensObs, hnil] at h1
+    · exact h0
+  | cons e rest =>
+    have he : e ∈ o.attrs.flatMap id := by
+      have : e ∈ o.attrs.reverse.flatMap id := by rw [hl]; exact List.mem_cons_self ..
+      obtain ⟨x, hx, hex⟩ := List.mem_flatMap.mp this
+      exact List.mem_flatMap.mpr ⟨x, List.mem_reverse.mp hx, hex⟩
+    have hel : e.2.length ∈ lensObs o := List.mem_map.mpr ⟨e, he, rfl⟩
+    rcases hn with h1 | ⟨h0, _⟩
+    · exact hu n h1 _ hel
+    · rw [h0] at hel; cases hel
+
 /-- **derivations_commute.** Two derivations `o1`, `o2` from one base (arguments anywhere in the pool of a bounded state):
-    whichever is performed first, the two meshes obtained report the same two observable values. -/
+    whichever is performed first, the two meshes obtained report the same two observable values.  `o1` and `o2` are the
+    SAME operation values in both orders, i.e. for `Append`/`ToPointCloud` the same resolution of `AttributeLength()`:
+    for ragged arguments Go may resolve differently from call to call, and then the two orders (indeed two runs of one
+    order) may differ — that is nondeterminism of the map order, not interference; with one common attribute length per
+    mesh the resolution is forced (`attrLen_forced`) and the statement is unconditional. -/
 theorem derivations_commute (E : Env α) (s : State κ α) (bs : s.Bounded) (o1 o2 : Op κ α)
     (c1 : o1.current = true) (c2 : o2.current = true)
     (h1 : Heap κ α) (r1 : MeshRep) (h2 : Heap κ α) (r2 : MeshRep)
@@ -130,23 +166,23 @@ theorem derivations_commute_reachable (E : Env α) (ops : List (Op κ α)) (hc :
     (all four hypotheses, ∃-witnesses), so the conclusion holds for them -/
 example :
     ∃ h1 r1 h2 r2 h12 r2' h21 r1',
-      (Op.append 0 1 : Op Nat Nat).apply E0 (run E0 ⟨Heap.empty, []⟩ ((witnessPre .append).take 4)) = some (h1, [r1]) ∧
-      (Op.append 0 2 : Op Nat Nat).apply E0 (run E0 ⟨Heap.empty, []⟩ ((witnessPre .append).take 4)) = some (h2, [r2]) ∧
-      (Op.append 0 2 : Op Nat Nat).apply E0 ⟨h1, (run E0 ⟨Heap.empty, []⟩ ((witnessPre .append).take 4)).pool ++ [r1]⟩
+      (Op.append 0 1 1 1 : Op Nat Nat).apply E0 (run E0 ⟨Heap.empty, []⟩ ((witnessPre .append).take 4)) = some (h1, [r1]) ∧
+      (Op.append 0 2 1 1 : Op Nat Nat).apply E0 (run E0 ⟨Heap.empty, []⟩ ((witnessPre .append).take 4)) = some (h2, [r2]) ∧
+      (Op.append 0 2 1 1 : Op Nat Nat).apply E0 ⟨h1, (run E0 ⟨Heap.empty, []⟩ ((witnessPre .append).take 4)).pool ++ [r1]⟩
         = some (h12, [r2']) ∧
-      (Op.append 0 1 : Op Nat Nat).apply E0 ⟨h2, (run E0 ⟨Heap.empty, []⟩ ((witnessPre .append).take 4)).pool ++ [r2]⟩
+      (Op.append 0 1 1 1 : Op Nat Nat).apply E0 ⟨h2, (run E0 ⟨Heap.empty, []⟩ ((witnessPre .append).take 4)).pool ++ [r2]⟩
         = some (h21, [r1']) ∧
       obs h12 r1 = obs h21 r1' ∧ obs h12 r2' = obs h21 r2 := by
   obtain ⟨h1, r1, h12, r2', a1, a12⟩ := appliesInOrder_spec E0 (run E0 ⟨Heap.empty, []⟩ ((witnessPre .append).take 4))
-    (.append 0 1) (.append 0 2) (by decide +kernel)
+    (.append 0 1 1 1) (.append 0 2 1 1) (by decide +kernel)
   obtain ⟨h2, r2, h21, r1', a2, a21⟩ := appliesInOrder_spec E0 (run E0 ⟨Heap.empty, []⟩ ((witnessPre .append).take 4))
-    (.append 0 2) (.append 0 1) (by decide +kernel)
+    (.append 0 2 1 1) (.append 0 1 1 1) (by decide +kernel)
   exact ⟨h1, r1, h2, r2, h12, r2', h21, r1', a1, a2, a12, a21,
     derivations_commute_reachable E0 _ (by decide) _ _ rfl rfl h1 r1 h2 r2 h12 r2' h21 r1' a1 a2 a12 a21⟩
 
 /-- the pure `Append` computes what the Go code is documented to do, on a concrete case: attribute only in the argument is
     zero-padded, indices of the argument are shifted by the receiver's vertex count -/
-example : pureAppend E0 ⟨1, [0, 1], [5], [[(7, [100, 200])]]⟩ ⟨1, [0], [6], [[(7, [300]), (8, [9])]]⟩
+example : pureAppend E0 2 1 ⟨1, [0, 1], [5], [[(7, [100, 200])]]⟩ ⟨1, [0], [6], [[(7, [300]), (8, [9])]]⟩
     = some ⟨1, [0, 1, 2], [5, 6], [[(7, [100, 200, 300]), (8, [0, 0, 9])]]⟩ := by decide +kernel
 
 end C01
